@@ -1141,6 +1141,14 @@ impl<'de, R: Read<'de>> Parser<R> {
                     return self.parse_exponent(pos, significand, exponent);
                 }
                 _ => {
+                    if radix != 10 {
+                        // `exponent` counts digits of the given radix, not decimal ones
+                        let f = significand as f64 * f64::from(radix).powi(exponent);
+                        if f.is_infinite() {
+                            return Err(self.error(ErrorCode::NumberOutOfRange));
+                        }
+                        return Ok(if pos { f } else { -f });
+                    }
                     return self.f64_from_parts(pos, significand, exponent);
                 }
             };
